@@ -19,6 +19,17 @@ def run(ctx):
         grid.append(dict(MaxFile=3, SyncEvery=3, Sizes={1, 2, 4}, MaxPuts=5))
     dqlib.mc_grid(ctx, grid)
     dqlib.mc_nonvacuity(ctx)
+    # 1a. life after the recovery: two messages enqueued after the restart, interleaved with the deliveries (C08PostFifo);
+    # a start-up truncation that is tied to a metadata file having been loaded (crash before the first completed sync)
+    # is only rejected then: the reader's read-ahead holds the stale tail that the second write replaces
+    post = dict(MaxFile=3, SyncEvery=3, Sizes={1, 2}, MaxPuts=2 if q else 3, MaxCrashes=1, AllowReopen=False, AllowTick=True, PostPuts=2)
+    dqlib.mc_grid(ctx, [dict(post)])
+    r = ctx.tlc("DiskQueue", "DiskQueue_mc.cfg", consts=dict(post, MaxPuts=2, Mutant="no_truncate_without_meta"), expect_ok=False, count=False)
+    if r["violated"] not in ("C08PostFifo", "NoGarbage", "C08Sentinel", "C08Run", "C08"):
+        raise Machinery("deviation no_truncate_without_meta is not rejected with two puts after the recovery (violated=%s)" % r["violated"])
+    r = ctx.tlc("DiskQueue", "DiskQueue_mc.cfg", consts=dict(post, MaxPuts=2, PostPuts=1, Mutant="no_truncate_without_meta"), expect_ok=False, count=False)
+    if not r["ok"]:
+        raise Machinery("deviation no_truncate_without_meta is rejected with a single put after the recovery already: the model changed")
     # 1b. two crashes: the incarnation after the first crash is used further and crashes again; the
     # metadata temp file left by the first crash is overwritten in place (stale tail)
     if q:
@@ -100,6 +111,8 @@ def run(ctx):
                 sig = "recovery-contract gen2 label=%s" % ev["label"]
                 if ev["hang"] or not ev["sentinel"]:
                     sig = "recovery-hangs gen2 label=%s" % ev["label"]
+                elif ev["extra"] == 0 and ev.get("post", [1, 2, 3]) != [1, 2, 3]:
+                    sig = "after-recovery-not-fifo gen2 label=%s post=%s" % (ev["label"], ev.get("post"))
                 what = ("second crash after %s (first crash after %s, recovery delivered X=%s, then %s): reopened queue "
                         "delivered %s = positions %s of L = X ++ new puts (hang=%s sentinel=%s extra=%s)" % (
                             ev["label"], g.get("label"), g.get("X"), json.dumps(g.get("ops2")), ev.get("Dabs"), ev["D"],
@@ -123,6 +136,11 @@ def run(ctx):
             sig = "recovery-contract label=%s" % ev["label"]
             if ev["hang"] or not ev["sentinel"]:
                 sig = "recovery-hangs label=%s" % ev["label"]
+            elif ev["extra"] == 0 and ev.get("post", [1, 2, 3]) != [1, 2, 3]:
+                sig = "after-recovery-not-fifo label=%s" % ev["label"]
+                what = ("crash after %s: the reopened queue delivered %s and the sentinel, but of the three messages then enqueued and "
+                        "taken (put, take, put, put, take, take) it handed out %s (0 = bytes that are none of them)" % (
+                            ev["label"], ev["D"], ev.get("post")))
         else:
             what = "event %s rejected by the contract" % json.dumps(ev)
             sig = "contract-event %s" % ev["ev"]
